@@ -64,25 +64,18 @@ theorem creates_only_desired (v : SetView) (cur upd : String) (pods : List Pod) 
   creates_only_desired_prop v cur upd pods f h
 
 /-- **Exactly**: on an empty cluster, Parallel policy, no fault, set not being deleted, the created ordinals are the
-    desired set, in ascending order. `hmax` keeps every desired ordinal below the int32 sentinel of the first-unhealthy
-    scan (a set whose only unhealthy pods sit at ordinal ≥ MaxInt32 makes the real code dereference a nil pod, C15). -/
+    desired set, in ascending order — for every replica count and slot list (no int32 bound: the first-unhealthy scan was
+    repaired, see C15). -/
 theorem empty_cluster_exact (v : SetView) (cur upd : String) (r : Int) (hr : v.replicas = some r)
-    (hpar : v.parallel = true) (hdel : v.deleting = false) (hmax : ∀ o ∈ desired r v.slots, o < maxInt32) :
+    (hpar : v.parallel = true) (hdel : v.deleting = false) :
     createOrds (observe (updateStatefulSet v cur upd [] []).1.acts) = desired r v.slots :=
-  C01d_exact_gen v cur upd [] r hr hpar hdel (by intro o; rfl) hmax
-
-/-- The same with the int32 bound stated on the spec: `replicas + |delete-slots| ≤ MaxInt32`. -/
-theorem empty_cluster_exact_int32 (v : SetView) (cur upd : String) (r : Int) (hr : v.replicas = some r) (h0 : 0 ≤ r)
-    (hpar : v.parallel = true) (hdel : v.deleting = false) (hsmall : r + v.slots.length ≤ maxInt32) :
-    createOrds (observe (updateStatefulSet v cur upd [] []).1.acts) = desired r v.slots :=
-  C01d_exact_int32 v cur upd r hr h0 hpar hdel hsmall
+  C01d_exact_gen v cur upd [] r hr hpar hdel (by intro o; rfl)
 
 /-- The same for any fault plan that does not fail a create. -/
 theorem empty_cluster_exact_faults (v : SetView) (cur upd : String) (f : Faults) (r : Int) (hr : v.replicas = some r)
-    (hpar : v.parallel = true) (hdel : v.deleting = false) (hf : ∀ o, f.hit 0 o = false)
-    (hmax : ∀ o ∈ desired r v.slots, o < maxInt32) :
+    (hpar : v.parallel = true) (hdel : v.deleting = false) (hf : ∀ o, f.hit 0 o = false) :
     createOrds (observe (updateStatefulSet v cur upd [] f).1.acts) = desired r v.slots :=
-  C01d_exact_gen v cur upd f r hr hpar hdel hf hmax
+  C01d_exact_gen v cur upd f r hr hpar hdel hf
 
 /-! non-vacuity -/
 private def exV : SetView :=
@@ -95,8 +88,7 @@ private def exV : SetView :=
     generation := 1
     stCurrentReplicas := 0 }
 
-example : exV.replicas = some 3 ∧ exV.parallel = true ∧ exV.deleting = false ∧
-    (3 : Int) + exV.slots.length ≤ maxInt32 := by decide
+example : exV.replicas = some 3 ∧ exV.parallel = true ∧ exV.deleting = false := by decide
 example : createOrds (observe (updateStatefulSet exV "a" "b" [] []).1.acts) = [2, 3, 4] := by decide
 
 end Asts.C01d
